@@ -21,6 +21,7 @@ func c03(c *eng.Ctx, r *eng.Report) {
 		"R3.5 state commit then node-database commit, both error-checked, before success is reported and before the head moves (shared with C05 R5.4); " +
 		"R3.6 errors of batch writes and commits are consumed at every call site; R3.8 an entry leaves an account's flush set (dirtyStorage) only in updateTrie, as it is written to the storage trie; R3.7 the flag that makes Commit write an account's code blob is raised unconditionally (constant true) by every function that installs code bytes, lowered only in Commit after InsertBlob of those bytes, and never computed. " +
 		"R3.10 a node leaves the dirty-node cache only for a stated reason: uncache deletes the very key it was called with (the committed root, and its children by recursion over childs()), Cap deletes the oldest flush-list entry after having put it into the batch, dereference deletes a child whose reference count dropped to zero — no other function deletes from NodeDatabase.nodes, so nodes of a state that is committed to memory but not yet flushed cannot be dropped by flushing another one; " +
+		"R3.11 Commit removes an account from the trie only if it self-destructed or was written in this block and is empty: deleteAccountObject is reached only across the `suicided` or the `isDirty` outcome — an account that was merely read looks empty while its storage cache is cold (empty() does not look at the storage root), and deleting it drops the account and all its slots from the committed root; " +
 		"R3.9 an account object that was written is committed: every cached object is either in the dirty set Commit iterates or has its one-shot onDirty hook armed (the C04 rule R4.8 applied here: removal from the dirty set re-arms the hook or drops the object, a replaced dirty set comes with a replaced object cache, the hook is cleared only after it was called). " +
 		"Not decided: LevelDB batch atomicity and durability (trusted), that every value readable before is readable after, arbitrary physical crash points."
 	r.Assume = []string{"a LevelDB batch write is atomic and durable once it returns nil"}
@@ -34,6 +35,7 @@ func c03(c *eng.Ctx, r *eng.Report) {
 	c03FlushSet(c, r)
 	c04DirtyOrArmedAs(c, r, "R3.9")
 	c03NodeCacheDeletes(c, r)
+	c03CommitDeletes(c, r)
 }
 
 func batchCalls(fn *ssa.Function, method string) []*ssa.Call {
@@ -553,4 +555,41 @@ func c03NodeCacheDeletes(c *eng.Ctx, r *eng.Report) {
 		}
 	}
 	r.Check(n >= 3, rule, "node-cache-delete:sites", "", fmt.Sprintf("%d deletions from NodeDatabase.nodes", n), fmt.Sprintf("only %d deletions from NodeDatabase.nodes found (uncache, Cap, dereference expected)", n))
+}
+
+// c03CommitDeletes: what Commit may delete.
+func c03CommitDeletes(c *eng.Ctx, r *eng.Report) {
+	const rule = "R3.11"
+	r.Min(rule, 1)
+	n := 0
+	for _, fn := range c.PkgFuncs("storage/account") {
+		if c.IsTestFunc(fn) || !strings.HasPrefix(eng.FuncName(fn), "(*storage/account.AccountDB).Commit") {
+			continue
+		}
+		for i, call := range callsNamed(fn, ".deleteAccountObject") {
+			n++
+			cut := func(a *ssa.BasicBlock, succ int) bool {
+				iff, ok := a.Instrs[len(a.Instrs)-1].(*ssa.If)
+				if !ok {
+					return false
+				}
+				for _, cd := range eng.Conjuncts(iff.Cond, succ == 0, iff) {
+					if !cd.True {
+						continue
+					}
+					d := eng.Desc(cd.V)
+					if strings.HasSuffix(d, ".suicided") {
+						return true
+					}
+					if ex, isE := cd.V.(*ssa.Extract); isE && ex.Index == 1 && strings.Contains(eng.Desc(ex.Tuple), ".accountObjectsDirty[") {
+						return true
+					}
+				}
+				return false
+			}
+			open := eng.PathToAvoiding(fn, call, nil, cut)
+			r.Check(!open, rule, fmt.Sprintf("commit-delete:%s#%d", eng.FuncName(fn), i), c.Pos(call.Pos()), "deleteAccountObject only for suicided or dirty objects", eng.FuncName(fn)+" can delete an account object that is neither self-destructed nor dirty: an existing account with nonce 0 and no code whose slots were not touched in this block counts as empty (empty() looks at the cached storage only), so a mere read of it makes Commit drop the account and all its storage from the committed root — which then also differs from the IntermediateRoot the header carries")
+		}
+	}
+	r.Check(n >= 1, rule, "commit-delete:sites", "", fmt.Sprintf("%d deleteAccountObject calls in Commit", n), "no deleteAccountObject call found in AccountDB.Commit")
 }
